@@ -46,6 +46,8 @@ pub struct Harness {
     pub anchors: Vec<(usize, usize)>,
     pub panics: Vec<(String, String)>,
     pub run_tag: u64,
+    /// caller-owned buffers handed to the C API during this run (poisoned after the call, freed at the next reset)
+    pub arena: Vec<Box<[u8]>>,
 }
 
 static HARNESS: Mutex<Harness> = Mutex::new(Harness {
@@ -57,6 +59,7 @@ static HARNESS: Mutex<Harness> = Mutex::new(Harness {
     anchors: Vec::new(),
     panics: Vec::new(),
     run_tag: 0,
+    arena: Vec::new(),
 });
 
 pub fn harness<R>(f: impl FnOnce(&mut Harness) -> R) -> R {
@@ -77,6 +80,8 @@ pub fn reset(run_tag: u64) {
         h.anchors.clear();
         h.panics.clear();
         h.run_tag = run_tag;
+        // every context of the previous run is gone by now
+        h.arena.clear();
     });
 }
 
@@ -141,6 +146,20 @@ pub fn take_calls() -> Vec<CallRec> {
 
 pub fn fn_calls() -> u64 {
     harness(|h| h.fn_calls)
+}
+
+/// What a C caller does with its own memory: the bytes are handed over in a private buffer which is
+/// overwritten as soon as the call returns (and freed when the run is over). Anything the library kept a
+/// pointer into, instead of copying, shows up as changed content afterwards.
+pub fn with_caller_buffer<R>(bytes: &[u8], f: impl FnOnce(*const u8, usize) -> R) -> R {
+    let mut buf: Box<[u8]> = bytes.into();
+    let r = f(buf.as_ptr(), buf.len());
+    for b in buf.iter_mut() {
+        *b = b'#';
+    }
+    harness(|h| h.arena.push(buf));
+    kernel::count("fault.caller_buffer_reused");
+    r
 }
 
 /// Stable class for a panic message (digits and quoted parts dropped).
@@ -704,6 +723,36 @@ fn simple(params: Vec<Type>, opt: Vec<LhsValue<'static>>, ret: Type, f: for<'i, 
             .collect(),
         return_type: ret,
         implementation: SimpleFunctionImpl::new(f),
+    }
+}
+
+/// A function definition whose parse-time and compile-time callbacks are scheduling + fault points too.
+#[derive(Debug)]
+pub struct HookedFn(pub SimpleFunctionDefinition);
+
+impl wirefilter::FunctionDefinition for HookedFn {
+    fn check_param(
+        &self,
+        settings: &wirefilter::ParserSettings,
+        params: &mut dyn ExactSizeIterator<Item = wirefilter::FunctionParam<'_>>,
+        next_param: &wirefilter::FunctionParam<'_>,
+        ctx: Option<&mut wirefilter::FunctionDefinitionContext>,
+    ) -> Result<(), wirefilter::FunctionParamError> {
+        callback("fn.check_param");
+        self.0.check_param(settings, params, next_param, ctx)
+    }
+
+    fn return_type(&self, params: &mut dyn ExactSizeIterator<Item = wirefilter::FunctionParam<'_>>, ctx: Option<&wirefilter::FunctionDefinitionContext>) -> Type {
+        self.0.return_type(params, ctx)
+    }
+
+    fn arg_count(&self) -> (usize, Option<usize>) {
+        self.0.arg_count()
+    }
+
+    fn compile(&self, params: &mut dyn ExactSizeIterator<Item = wirefilter::FunctionParam<'_>>, ctx: Option<wirefilter::FunctionDefinitionContext>) -> wirefilter::CompiledFunction {
+        callback("fn.compile");
+        self.0.compile(params, ctx)
     }
 }
 
